@@ -2441,18 +2441,28 @@ class C15(ProverCheck):
             body = [{"s": "array", "rows": [[elem() for _ in range(m)] for _ in range(n)]}]
         else:
             body = [{"s": "array", "els": [elem() for _ in range(n)]}]
+        narr = 1
+        if rng.random() < 0.35 and n >= 2:
+            # a second, shorter array indexed by the same (secret) index objects
+            n2 = n - rng.randrange(1, min(3, n))
+            if two_d:
+                body.append({"s": "array", "rows": [[elem() for _ in range(m)] for _ in range(n2)]})
+            else:
+                body.append({"s": "array", "els": [elem() for _ in range(n2)]})
+            narr = 2
         for _ in range(rng.randrange(1, 9)):
             ix = [index(d) for d in range(len(dims))]
+            arr = rng.randrange(narr) if narr == 2 else 0
             chained = two_d and rng.random() < 0.25
             if two_d and rng.random() < 0.2:
                 # store the row read at a (usually secret) index at another position
                 body.append({"s": "aset", "arr": 0, "ix": [index(0)], "row_from": index(0), "value": {"k": 0}, "try": True})
                 continue
             if rng.random() < 0.5:
-                body.append({"s": "let", "e": {"call": "aget", "arr": 0, "ix": ix, "chained": chained, "t": "I"},
+                body.append({"s": "let", "e": {"call": "aget", "arr": arr, "ix": ix, "chained": chained, "t": "I"},
                              "try": True})
             else:
-                body.append({"s": "aset", "arr": 0, "ix": ix, "chained": chained, "value": elem(), "try": True})
+                body.append({"s": "aset", "arr": arr, "ix": ix, "chained": chained, "value": elem(), "try": True})
         plan = {"cfg": cfg, "inputs": inputs, "body": body}
         return {"plan": plan, "alt_inputs": alt, "n_ix": n_ix, "seed": rng.randrange(1 << 30)}
 
@@ -2474,7 +2484,8 @@ class C15(ProverCheck):
             if v["property"] == "C01":
                 add("unsat_constraint", {"op": v["site"].get("op")}, v["detail"])
         secret_access = any(isinstance(s.get("ix") or (s.get("e") or {}).get("ix"), list) and
-                            any("ref" in i for i in (s.get("ix") or s["e"]["ix"])) for s in plan["body"][1:])
+                            any("ref" in i for i in (s.get("ix") or s["e"]["ix"])) for s in plan["body"]
+                            if s.get("s") != "array")
         t_caught = [(s, c) for (s, c, _) in tr.caught]
         if tr.outcome != "completed" or n_out != "completed":
             raise W.HarnessError("array history did not complete: %s / %s %s" % (tr.outcome, n_out, tr.outcome_msg))
@@ -2545,12 +2556,16 @@ class C15(ProverCheck):
         res["sigs"] = [E.sha((s["s"], len(s.get("ix") or s.get("e", {}).get("ix") or []),
                               [("ref" in i) for i in (s.get("ix") or s.get("e", {}).get("ix") or [])],
                               bool(s.get("chained") or s.get("e", {}).get("chained")), len(plan["body"][0].get("rows") or []),
-                              len(plan["body"][0].get("els") or []), bool(tr.caught))) for s in plan["body"][1:]]
+                              len(plan["body"][0].get("els") or []), bool(tr.caught))) for s in plan["body"][1:]
+                       if s.get("s") != "array"]
         return res
 
     def shrink_candidates(self, case):
         for c in P.shrink_plan_candidates(case):
-            if c["plan"]["body"] and c["plan"]["body"][0].get("s") == "array" and len(c["plan"]["inputs"]) == len(case["plan"]["inputs"]):
+            if c["plan"]["body"] and c["plan"]["body"][0].get("s") == "array" and \
+                    len(c["plan"]["inputs"]) == len(case["plan"]["inputs"]) and \
+                    sum(1 for s in c["plan"]["body"] if s.get("s") == "array") == \
+                    sum(1 for s in case["plan"]["body"] if s.get("s") == "array"):
                 yield c
 
 
@@ -2723,6 +2738,11 @@ class C17(TraceCheck):
                     add("kwargs_accepted", site0, "a keyword argument was accepted by the wrapped function")
                 elif "ValueError" not in [cls for (_, cls, _) in tr.caught]:
                     add("kwargs_accepted", site0, "keyword argument: expected ValueError, caught %r" % (tr.caught,))
+                elif c is not None and c["mark0"] < len(tr.marks):
+                    left = tr.marks[c["mark0"]][1] - c["ev0"]
+                    if left:
+                        kinds = [e[0] for e in rec.events[c["ev0"]:c["ev0"] + left]]
+                        add("refused_call_left_trace", site0, "the refused call allocated %r before raising" % (kinds[:6],))
                 continue
             if c is None or "ret" not in c:
                 add("call_failed", site0, "wrapped call raised: %r" % (tr.caught[:2],))
@@ -3423,7 +3443,18 @@ class C12(TraceCheck):
             faults["write_fault"] = ["pysnark_wires", rng.randrange(1, 40)]
         second = rng.random() < 0.35
         alt = [rng.choice([0, 1, 2, 3, -2, 5, 7]) for _ in inputs]
-        return {"plan": plan, "faults": faults, "second_run": second, "alt_inputs": alt, "seed": rng.randrange(1 << 30)}
+        case = {"plan": plan, "faults": faults, "second_run": second, "alt_inputs": alt, "seed": rng.randrange(1 << 30)}
+        if subqaps and not same_name and rng.random() < 0.25:
+            # directory history of three runs: the program, an edited version of one of its functions (whose key
+            # generation may fail), the original program again
+            j = rng.randrange(len(subqaps))
+            edited = copy.deepcopy(subqaps)
+            edited[j]["tmpl"] = (edited[j]["tmpl"] + rng.randrange(1, 3)) % 3
+            case["edited_subqaps"] = edited
+            case["edit_fault"] = rng.choice([None, ["qapgenf", 1], ["qapgenf", 2], ["qapprove", 1]])
+            case["second_run"] = False
+            case["faults"] = {"bufcap": faults["bufcap"]}
+        return case
 
     def run(self, case):
         plan, faults = case["plan"], case.get("faults", {})
@@ -3488,6 +3519,21 @@ class C12(TraceCheck):
                         add("digest_depends_on_inputs", {}, "function digests differ between two runs of one program "
                             "on different inputs", 2)
             events += len(r2.calls)
+        if case.get("edited_subqaps") and r1.prove_outcome == "returned" and not viol and not write_failed:
+            plan2 = dict(plan, subqaps=case["edited_subqaps"])
+            for k, (pl, flt) in enumerate(((plan2, {"toolfail": case["edit_fault"]} if case.get("edit_fault") else {}),
+                                           (plan, {})), start=2):
+                fs.reads.clear()
+                rk = QapRun(pl, fs, case["seed"] + k, faults=flt).run()
+                fired["run_%d_in_same_directory" % k] = 1
+                if any(c.get("injected_failure") for c in rk.calls):
+                    fired["toolfail"] = fired.get("toolfail", 0) + 1
+                for oracle, site, detail in judge_qap_run(rk, pl):
+                    add(oracle, dict(site, history="edited"), detail, 1)
+                if rk.outcome == "completed":
+                    for oracle, site, detail in judge_qap_prove(rk, pl, flt):
+                        add(oracle, dict(site, history="edited", run=k), detail, 1)
+                events += len(rk.calls)
         return {"violations": viol,
                 "digest": E.sha((r1.outcome, r1.prove_outcome, fs.snapshot(), [c["tool"] for c in r1.calls],
                                  [v["oracle"] for v in viol])),
